@@ -766,6 +766,29 @@ func (x *vlExec) apply(op vlOp) bool {
 		delim := byte(op.M)
 		idx := bytes.IndexByte(o.readable, delim)
 		cr := idx >= 0 && crossed(idx+1)
+		// the search connection.Until resumes after a wait: first occurrence at or after `skip`
+		// (skips spread over the stream, and ending just before the first node boundary)
+		skips := []int{op.N, have / 2, have - 1}
+		if lb.read != nil {
+			if l0 := lb.read.Len(); l0 > 0 && l0 < have {
+				skips = append(skips, l0-1, l0-1-int(op.S%64), l0)
+			}
+		}
+		for _, sk := range skips {
+			if sk < 0 || have == 0 {
+				continue
+			}
+			want := -1
+			if sk < have {
+				if j := bytes.IndexByte(o.readable[sk:], delim); j >= 0 {
+					want = sk + j
+				}
+			}
+			if got := lb.indexByte(delim, sk); got != want {
+				x.fail("read_ret", "indexByte(0x%02x, skip %d) = %d with %d readable bytes (first node holds %d), the stream has it at %d", delim, sk, got, have, lb.read.Len(), want)
+				return true
+			}
+		}
 		p, err := rd.Until(delim)
 		if idx < 0 {
 			if err == nil {
